@@ -1581,7 +1581,21 @@ def run_queue(case):
                         await w.close(op[1], bytes.fromhex(op[3]))
                     frames.append(bytes(tr.buf[mark:]))
             loop.run_until_complete(write_all())
-            q = WebSocketDataQueue(_mk_proto(), 2 ** 62, loop=loop)
+            # a protocol that honours read flow control: pause_reading() / resume_reading() flip _reading_paused, and a
+            # paused transport delivers nothing (the harness holds the frames back until reading is resumed)
+            proto = _mk_proto()
+            flow = {"pauses": 0, "resumes": 0}
+
+            def pause_reading():
+                proto._reading_paused = True
+                flow["pauses"] += 1
+
+            def resume_reading():
+                proto._reading_paused = False
+                flow["resumes"] += 1
+            proto.pause_reading = pause_reading
+            proto.resume_reading = resume_reading
+            q = WebSocketDataQueue(proto, case.get("qlimit", 2 ** 62), loop=loop)
             rd = WebSocketReader(q, rc["max"], bool(cfg["compress"]), bool(rc["decode_text"]))
             o_feed = q.feed_data
 
@@ -1606,6 +1620,8 @@ def run_queue(case):
             state = {"task": None, "next": 0, "half": None}
 
             def feed_step(part):
+                if proto._reading_paused:
+                    return                       # the transport is paused: nothing arrives
                 if state["half"] is not None:
                     rd.feed_data(state["half"])
                     state["half"] = None
@@ -1637,8 +1653,23 @@ def run_queue(case):
                 t = state["task"]
                 if t is not None and not t.done():
                     await asyncio.sleep(0)
-                while state["half"] is not None or state["next"] < len(frames):
-                    feed_step(0)
+                for _ in range(4 * len(frames) + 8):
+                    if state["half"] is None and state["next"] >= len(frames):
+                        break
+                    if not proto._reading_paused:
+                        feed_step(0)
+                        continue
+                    # reading is paused: only the consumer can get it going again
+                    t = state["task"]
+                    if t is not None and not t.done():
+                        await asyncio.sleep(0)
+                        if not t.done() and not q._buffer:
+                            break
+                        continue
+                    if not q._buffer:
+                        break                    # nothing queued, nobody to resume: the connection is wedged
+                    await consume()
+                state["undelivered"] = (len(frames) - state["next"]) + (1 if state["half"] is not None else 0)
                 rd.feed_eof()
                 t = state["task"]
                 if t is not None:
@@ -1651,16 +1682,22 @@ def run_queue(case):
             loop.run_until_complete(director())
             left = len(q._buffer)
             exc = rd._exc
+            paused_end = bool(proto._reading_paused)
     finally:
         asyncio.set_event_loop(None)
         loop.close()
-    return {"got": got, "log": log, "left": left, "error": repr(exc) if exc else None}
+    return {"got": got, "log": log, "left": left, "error": repr(exc) if exc else None, "paused_end": paused_end,
+            "undelivered": state.get("undelivered", 0), "flow": flow}
 
 
 def judge_queue(case, r):
     if r["error"]:
         return f"the reader failed: {r['error']}"
     exp = [expected(op) for op in case["ops"]]
+    if r.get("paused_end") and r["left"] == 0:
+        return (f"read flow control: the consumer has drained the queue ({len(r['got'])} messages read) but reading is still "
+                f"paused (pause_reading x{r['flow']['pauses']}, resume_reading x{r['flow']['resumes']}): "
+                f"{r['undelivered']} frame(s) the peer sent can never arrive")
     if r["got"] == exp and r["left"] == 0:
         return None
     fb = next((k for k in range(min(len(exp), len(r["got"]))) if exp[k] != r["got"][k]), min(len(exp), len(r["got"])))
@@ -1691,7 +1728,15 @@ def gen_queue_case(rng, i):
     else:
         for _ in range(rng.randrange(3, 14)):
             script.append(rng.choice([["read"], ["read"], ["feed", 0], ["feed", 1], ["cancel"], ["yield"], ["yield"]]))
-    return {"kind": "queue", "suite": "queue", "backend": "toy", "cfg": cfg, "rc": rc, "ops": ops, "script": script}
+    case = {"kind": "queue", "suite": "queue", "backend": "toy", "cfg": cfg, "rc": rc, "ops": ops, "script": script}
+    if i % 3 == 0:
+        # read flow control in play: queue limit small against some messages (a message alone may exceed 2 x limit)
+        case["qlimit"] = rng.choice([1, 2, 8, 50, 70, 200])
+        if rng.random() < 0.5:
+            k = rng.randrange(len(ops))
+            if ops[k][1] in (OP_TEXT, OP_BINARY):
+                ops[k][4] = (bytes.fromhex(ops[k][4])[:4] + b"y" * rng.choice([2 * case["qlimit"], 2 * case["qlimit"] + 1, 500])).hex()
+    return case
 
 
 def shrink_queue(case, budget=60):
@@ -1732,6 +1777,7 @@ def suite_queue(ctx, exe):
         ctx.case((json.dumps(case, sort_keys=True), json.dumps(r["got"])), nontrivial=bool(r["got"]))
         ctx.count("queue:cancelled-reads", r["log"].count("X"))
         ctx.count("queue:reads", r["log"].count("R"))
+        ctx.count("queue:pause_reading", r["flow"]["pauses"])
         bad = judge_queue(case, r)
         if bad:
             small = shrink_queue(case)
